@@ -429,23 +429,34 @@ fn case_repeated(t: &mut Tape, st: &mut Stats) -> Verdict {
     let cb = written(&b, &mut n_atoms);
     let visits = 2 + t.below(4);
     let with_else = t.chance(1, 4);
-    let looping = t.below(2);
+    // the lines are visited again by a while loop, a for-in loop, or by a function that calls itself from inside the
+    // taken first branch (the outer visit is then still inside its if block while the inner one runs the same lines)
+    let looping = t.below(3);
     let mut script = String::new();
     match looping {
         0 => script.push_str(&format!("while tick visits {}\n", visits)),
-        _ => script.push_str(&format!("its = array{}\nfor it in ${{its}}\n", " v".repeat(visits))),
+        1 => script.push_str(&format!("its = array{}\nfor it in ${{its}}\n", " v".repeat(visits))),
+        _ => script.push_str("fn visit\n"),
     }
     for i in 0..n_atoms {
         script.push_str(&format!("    a{} = cap\n", i));
     }
     script.push_str(&format!("    r = not {}\n    emit not ${{r}}\n", ca));
-    script.push_str(&format!("    if {}\n        emit if\n    elseif {}\n        emit elseif\n", ca, cb));
+    if looping == 2 {
+        script.push_str(&format!("    if {}\n        emit if\n        if tick rec {}\n            visit\n        end\n        emit back\n    elseif {}\n        emit elseif\n", ca, visits - 1, cb));
+    } else {
+        script.push_str(&format!("    if {}\n        emit if\n    elseif {}\n        emit elseif\n", ca, cb));
+    }
     if with_else {
         script.push_str("    else\n        emit else\n");
     }
     script.push_str("    end\n");
-    script.push_str(&format!("    while {}\n        emit while\n        goto :out\n    end\n    :out emit visited\n", cb));
-    script.push_str("end\n");
+    if looping == 2 {
+        script.push_str("    emit visited\nend\nvisit\n");
+    } else {
+        script.push_str(&format!("    while {}\n        emit while\n        goto :out\n    end\n    :out emit visited\n", cb));
+        script.push_str("end\n");
+    }
     script.push_str("emit done\n");
     // per-visit values
     let mut answers = vec![];
@@ -487,6 +498,30 @@ fn case_repeated(t: &mut Tape, st: &mut Stats) -> Verdict {
             expected.push("while".to_string());
         }
         expected.push("visited".to_string());
+    }
+    if looping == 2 {
+        // recursive visits: visit j+1 happens inside the taken first branch of visit j
+        fn rec(j: usize, decisions: &[(bool, bool)], with_else: bool, out: &mut Vec<String>) {
+            let (ea, eb) = decisions[j];
+            out.push(format!("not {}", !ea));
+            if ea {
+                out.push("if".to_string());
+                if j + 1 < decisions.len() {
+                    rec(j + 1, decisions, with_else, out);
+                }
+                out.push("back".to_string());
+            } else if eb {
+                out.push("elseif".to_string());
+            } else if with_else {
+                out.push("else".to_string());
+            }
+            out.push("visited".to_string());
+        }
+        expected.clear();
+        rec(0, &decisions, with_else, &mut expected);
+        if decisions[0].0 {
+            st.class("same-if-line-entered-again-from-inside-its-taken-branch");
+        }
     }
     expected.push("done".to_string());
     if decisions.windows(2).any(|w| w[0] == (false, true) && w[1] == (false, true)) {
@@ -620,7 +655,7 @@ fn case_truthiness(t: &mut Tape, st: &mut Stats) -> Verdict {
 pub fn property() -> Property {
     Property {
         id: "C06",
-        rule: "(grammar) EXHAUSTIVE enumeration of every well-formed token sequence of E := A ((and|or) A)*, A := T | F | ( E? ) up to 11 tokens (quick) / 15 tokens (thorough), each T/F spelled with a truthy/falsy value from a pool and passed through a variable, run through all four consumers (not, if, elseif, while - each written with any of its registered names, aliases or the full std::... name) and compared with a 40-line and-of-ors reference evaluator; (random) longer sequences up to 60 tokens, nesting <= 6, and wide statements of 40..140 sibling groups (up to ~600 tokens); (re-evaluated) two conditions A, B of up to ~10 tokens whose atoms are variables re-assigned before each of 2..5 visits of the same `not A` / `if A .. elseif B [else] end` / `while B` lines inside a while or for-in loop: every visit must decide by the values current at that visit; (truthiness) every falsy spelling with case variants, near-misses (incl. falsy words padded with blanks) and arbitrary strings through not / if - and, for values outside the C09 classes, through `if not` and `while not` - against the ASCII-case-insensitive table; 'absent' is an undefined variable or a function in command position that ends without a value after a command with a truthy output (through not, if, elseif, while). Non-trivial: sequence with a group or both connectives; distinct by (token sequence, atom values)",
+        rule: "(grammar) EXHAUSTIVE enumeration of every well-formed token sequence of E := A ((and|or) A)*, A := T | F | ( E? ) up to 11 tokens (quick) / 15 tokens (thorough), each T/F spelled with a truthy/falsy value from a pool and passed through a variable, run through all four consumers (not, if, elseif, while - each written with any of its registered names, aliases or the full std::... name) and compared with a 40-line and-of-ors reference evaluator; (random) longer sequences up to 60 tokens, nesting <= 6, and wide statements of 40..140 sibling groups (up to ~600 tokens); (re-evaluated) two conditions A, B of up to ~10 tokens whose atoms are variables re-assigned before each of 2..5 visits of the same `not A` / `if A .. elseif B [else] end` / `while B` lines inside a while or for-in loop, or by a function that calls itself from inside the taken first branch: every visit must decide by the values current at that visit; (truthiness) every falsy spelling with case variants, near-misses (incl. falsy words padded with blanks) and arbitrary strings through not / if - and, for values outside the C09 classes, through `if not` and `while not` - against the ASCII-case-insensitive table; 'absent' is an undefined variable or a function in command position that ends without a value after a command with a truthy output (through not, if, elseif, while). Non-trivial: sequence with a group or both connectives; distinct by (token sequence, atom values)",
         assumptions: &[
             "atom values are never the keywords and/or/(/) and never a registered command name (documented dispatch rule for the first token)",
             "only well-formed statements are generated",
@@ -660,7 +695,7 @@ pub fn property() -> Property {
                     Tier::Thorough => Plan::Random { cases: 1_200_000, max_len: 240 },
                 },
                 case: case_repeated,
-                min_classes: &[("elseif-taken-on-consecutive-visits", 1000), ("decision-changes-between-visits", 5000)],
+                min_classes: &[("elseif-taken-on-consecutive-visits", 1000), ("decision-changes-between-visits", 5000), ("same-if-line-entered-again-from-inside-its-taken-branch", 1500)],
             },
             Section {
                 name: "truthiness",
